@@ -463,8 +463,25 @@ static const c_cfg_t ccfgs[] = {
     { KX_ECDHE_RSA, TLS_ECDHE_RSA_WITH_AES_128_GCM_SHA256, 0, "tls12-ecdhe-rsa-gcm" },
 };
 #define NCCFG ((int) (sizeof(ccfgs) / sizeof(ccfgs[0])))
-enum { C_NONE = 0, C_DELETE, C_DELETE2, C_DUP, C_SWAP, C_INJECT, C_CCS_FIRST, C_NK };
-static const char *cdname[] = { "none", "delete", "delete-two-consecutive", "duplicate", "swap", "inject-empty", "ccs-before-messages" };
+/* C_FINVAR: the flight is untouched, the Finished is varied: i = 0 one record, 1..15 split into two records after i bytes;
+ * t = 0 the correct verify_data, 1 all zeros, 2 last bit flipped, 3 all 0xff */
+enum { C_NONE = 0, C_DELETE, C_DELETE2, C_DUP, C_SWAP, C_INJECT, C_CCS_FIRST, C_FINVAR, C_NK };
+static const char *cdname[] = { "none", "delete", "delete-two-consecutive", "duplicate", "swap", "inject-empty", "ccs-before-messages", "finished-variant" };
+/* The stack below the caller is filled with one byte value before the last Finished fragment is fed: a verify_data
+ * comparison against a buffer that was never written (uninitialised local) then compares against THAT value, in the
+ * enumeration run and in every replay alike - the all-zero and all-0xff Finished variants are paired with fill 00 / ff. */
+static void __attribute__((noinline)) stack_fill(int byte)
+{
+    volatile unsigned char area[96 * 1024];
+    size_t i;
+    for (i = 0; i < sizeof(area); i++) area[i] = (unsigned char) byte;
+}
+static void finvar_apply(int t, unsigned char *fin)
+{
+    if (t == 1) memset(fin + 4, 0, 12);
+    else if (t == 2) fin[15] ^= 0x01;
+    else if (t == 3) memset(fin + 4, 0xff, 12);
+}
 typedef struct {
     world_t w;
     int ci;
@@ -621,13 +638,29 @@ static void c_run_case(void *ctx, mx_result_t *r)
     tk12_finished(g->ms, 1, &tr, vd);
     fin[0] = 20; fin[1] = 0; fin[2] = 0; fin[3] = 12;
     memcpy(fin + 4, vd, 12);
-    rl = tk12_gcm_seal(g->wkey, 16, g->wsalt, 0, 22, fin, 16, rec);
-    if (rl > 0 && !(g->w.s[1].err_rc < 0 || g->w.s[1].ssl->err != SSL_ALERT_NONE))
+    if (g->kind == C_FINVAR)
     {
-        world_feed(&g->w, 1, rec, rl);
+        finvar_apply(g->t, fin);
+    }
+    if (g->kind == C_FINVAR && g->i > 0)
+    {
+        /* a handshake message may legally span records: the Finished in two records */
+        rl = tk12_gcm_seal(g->wkey, 16, g->wsalt, 0, 22, fin, g->i, rec);
+        if (rl > 0 && !(g->w.s[1].err_rc < 0 || g->w.s[1].ssl->err != SSL_ALERT_NONE)) world_feed(&g->w, 1, rec, rl);
+        rl = tk12_gcm_seal(g->wkey, 16, g->wsalt, 1, 22, fin + g->i, 16 - g->i, rec);
+        stack_fill(g->t == 1 ? 0x00 : g->t == 3 ? 0xff : 0xaa);
+        if (rl > 0 && !(g->w.s[1].err_rc < 0 || g->w.s[1].ssl->err != SSL_ALERT_NONE)) world_feed(&g->w, 1, rec, rl);
+    }
+    else
+    {
+        rl = tk12_gcm_seal(g->wkey, 16, g->wsalt, 0, 22, fin, 16, rec);
+        if (rl > 0 && !(g->w.s[1].err_rc < 0 || g->w.s[1].ssl->err != SSL_ALERT_NONE))
+        {
+            world_feed(&g->w, 1, rec, rl);
+        }
     }
     complete = world_is_complete(&g->w, 1);
-    legal = g->kind == C_NONE;
+    legal = g->kind == C_NONE || (g->kind == C_FINVAR && g->t == 0);
     snprintf(r->outcome, sizeof(r->outcome), "%s:server:%s:%s:alert%d", cc->name, cdname[g->kind], complete ? "COMPLETE" : "refused", g->w.s[1].ssl->err);
     r->transitions = (uint32_t) no + 2;
     r->trace_hash = world_trace_hash(&g->w);
@@ -638,7 +671,7 @@ static void c_run_case(void *ctx, mx_result_t *r)
         snprintf(r->what, sizeof(r->what), "%s server completed its handshake although the malicious client's flight was deviated: %s at position %d (type %d), Finished recomputed over the deviated transcript and sealed under the client's own write key",
             cc->name, cdname[g->kind], g->i, g->kind == C_INJECT ? g->t : (g->i < g->nm ? g->m[g->i].type : -1));
     }
-    else if (!complete && legal)
+    else if (!complete && g->kind == C_NONE)
     {
         r->violation = 1;
         snprintf(r->key, sizeof(r->key), "%s|victim=server|legal-sequence-refused", cc->name);
@@ -777,10 +810,25 @@ static void d_run_case(void *ctx, mx_result_t *r)
         /* the ChangeCipherSpec made the client activate the key it reads with */
         memcpy(rkey, g->w.s[0].ssl->sec.readKey, 16);
         memcpy(rsalt, g->w.s[0].ssl->sec.readIV, 4);
-        rl = tk12_gcm_seal(rkey, 16, rsalt, 0, 22, fin, 16, rec);
-        if (rl > 0)
+        if (g->kind == C_FINVAR)
         {
-            world_feed(&g->w, 0, rec, rl);
+            finvar_apply(g->t, fin);
+        }
+        if (g->kind == C_FINVAR && g->i > 0)
+        {
+            rl = tk12_gcm_seal(rkey, 16, rsalt, 0, 22, fin, g->i, rec);
+            if (rl > 0) world_feed(&g->w, 0, rec, rl);
+            rl = tk12_gcm_seal(rkey, 16, rsalt, 1, 22, fin + g->i, 16 - g->i, rec);
+            stack_fill(g->t == 1 ? 0x00 : g->t == 3 ? 0xff : 0xaa);
+            if (rl > 0 && g->w.s[0].err_rc >= 0 && g->w.s[0].ssl->err == SSL_ALERT_NONE) world_feed(&g->w, 0, rec, rl);
+        }
+        else
+        {
+            rl = tk12_gcm_seal(rkey, 16, rsalt, 0, 22, fin, 16, rec);
+            if (rl > 0)
+            {
+                world_feed(&g->w, 0, rec, rl);
+            }
         }
     }
     complete = world_is_complete(&g->w, 0);
@@ -795,6 +843,10 @@ static void d_run_case(void *ctx, mx_result_t *r)
             else if (b < g->nm && g->m[b].type == 13) b++;
             else legal = 0;
         }
+    }
+    if (g->kind == C_FINVAR)
+    {
+        legal = g->t == 0;
     }
     snprintf(r->outcome, sizeof(r->outcome), "%s:client:%s:%s:%s:alert%d", cc->name, cdname[g->kind], answered ? "answered" : "no-answer", complete ? "COMPLETE" : "refused", g->w.s[0].ssl->err);
     r->transitions = (uint32_t) no + 2;
@@ -844,6 +896,10 @@ static void run_group(long gi, void *unused)
         snprintf(desc, sizeof(desc), "D;c=%d;k=%d;i=%d;t=%d (%s malicious server: %s pos=%d type=%d of %d msgs)", g.ci, (K), (I), (T), ccfgs[g.ci].name, cdname[K], (I), (T), g.nm); \
         mx_fork_case(desc, d_run_case, &g); } while (0)
         DFORK(C_NONE, 0, 0);
+        for (i = 0; i <= 15; i++)
+        {
+            for (t = 0; t < 4; t++) DFORK(C_FINVAR, i, t);
+        }
         for (i = 0; i < g.nm; i++)
         {
             DFORK(C_DELETE, i, 0);
@@ -887,6 +943,10 @@ static void run_group(long gi, void *unused)
         mx_fork_case(desc, c_run_case, &g); } while (0)
         CFORK(C_NONE, 0, 0);
         CFORK(C_CCS_FIRST, 0, 0);
+        for (i = 0; i <= 15; i++)
+        {
+            for (t = 0; t < 4; t++) CFORK(C_FINVAR, i, t);
+        }
         for (i = 0; i < g.nm; i++)
         {
             CFORK(C_DELETE, i, 0);
